@@ -38,26 +38,26 @@ CONTRACTS['xfrm.Xfrm.delete_sa'].exc_ensures = ['nothing_changed()']
 
 spec('ipsec_proto', {'c': CH}, Int, '50 if c.proposal.protocol_id == 3 else 51')
 # the two deletions of one CHILD_SA: the outbound SA lives at the peer's address, the inbound one at ours
-spec('del_pair', {'s': S, 'c': CH}, List(Rec('Effect')),
-     '[Effect(2, s.peer_addr, ipsec_proto(c), c.outbound_spi, 0), Effect(2, s.my_addr, ipsec_proto(c), c.inbound_spi, 0)]')
+spec('del_pair', {'my': IP, 'peer': IP, 'c': CH}, List(Rec('Effect')),
+     '[Effect(2, peer, ipsec_proto(c), c.outbound_spi, 0), Effect(2, my, ipsec_proto(c), c.inbound_spi, 0)]')
 
 contract('xfrm.Xfrm.delete_child_sa', props=['C10'],
          params={'ike_sa': S, 'child_sa': CH}, requires=['live_ref(ike_sa)'],
          modifies=['ghost:trace'], raises={'OSError': 'True'},
-         ensures={'C10:pair': 'trace == old(trace) + del_pair(ike_sa, child_sa)'})
+         ensures={'C10:pair': 'trace == old(trace) + del_pair(ike_sa.my_addr, ike_sa.peer_addr, child_sa)'})
 
 # every tracked CHILD_SA is deleted in the kernel, in order, and none stays tracked
-spec('del_all', {'s': S, 'l': List(CH), 'k': Int}, List(Rec('Effect')),
-     '[] if k <= 0 else del_all(s, l, k - 1) + del_pair(s, at(l, k - 1))', recursive=True, decreases='k')
+spec('del_all', {'my': IP, 'peer': IP, 'l': List(CH), 'k': Int}, List(Rec('Effect')),
+     '[] if k <= 0 else del_all(my, peer, l, k - 1) + del_pair(my, peer, at(l, k - 1))', recursive=True, decreases='k')
 contract('ikesa.IkeSa.delete_child_sas', props=['C10', 'C16'],
          params={}, requires=['live_ref(self)'],
          modifies=['self.child_sas', 'ghost:trace'], raises={'OSError': 'True'},
-         ensures={'C10:all-deleted': 'trace == old(trace) + del_all(self, old(self.child_sas), len(old(self.child_sas)))',
+         ensures={'C10:all-deleted': 'trace == old(trace) + del_all(self.my_addr, self.peer_addr, old(self.child_sas), len(old(self.child_sas)))',
                   'C10:none-tracked': 'len(self.child_sas) == 0'},
          loops={0: loop(invariant=['0 <= _i <= len(self.child_sas)',
-                                   'trace == old(trace) + del_all(self, self.child_sas, _i)',
+                                   'trace == old(trace) + del_all(self.my_addr, self.peer_addr, self.child_sas, _i)',
                                    'self.child_sas == old(self.child_sas)'],
-                        reveal=['del_all(self, self.child_sas, _i + 1)', 'del_all(self, self.child_sas, _i)'])})
+                        reveal=['del_all(self.my_addr, self.peer_addr, self.child_sas, _i + 1)', 'del_all(self.my_addr, self.peer_addr, self.child_sas, _i)'])})
 
 # ---- installing a CHILD_SA: mirror-image SAs with the keys of their direction (C01) --------------------------------
 spec('encr_name', {'c': CH}, Opt(Bytes), 'b"cbc(aes)" if c.proposal.protocol_id == 3 else None')
